@@ -282,6 +282,22 @@ def fam_curve(ctx, rng):
             ctx.check(before_q == after_q, "query-leaves-peak-state-unchanged",
                       "asking for the mean-curve peak in another range changed the object's own search range / peak",
                       before=list(before_q), after=list(after_q), asked=list(r_other))
+            # the range REQUESTED in the call decides (the documented default is the full range), whatever range the
+            # object itself stores: the full range asked for explicitly, by default, and another range
+            for asked, call in (((None, None), lambda: c.mean_curve_peak(search_range_in_hz=(None, None))),
+                                ((None, None), lambda: c.mean_curve_peak()),
+                                (tuple(r_other), lambda: c.mean_curve_peak(search_range_in_hz=r_other))):
+                oq = Oracle(f, y, asked)
+                try:
+                    fq, aq = call()
+                    pq = oq.judge(fq, aq)
+                    ctx.check(not pq, "mean-curve-peak", f"diffuse-field mean_curve_peak for a requested range that is not the stored one: {pq[0][1] if pq else ''}",
+                              frequency=f, curve=y, search_range=list(asked), stored_range=list(r), reported=[fq, aq],
+                              mechanism="requested-range-differs-from-stored-range")
+                except ValueError:
+                    ctx.check(not oq.nan_forbidden, "mean-curve-peak", "diffuse-field mean_curve_peak refused although the requested "
+                              "range holds an interior local maximum", frequency=f, curve=y, search_range=list(asked), stored_range=list(r),
+                              mechanism="requested-range-differs-from-stored-range")
             o = Oracle(f, y, tuple(r))
             try:
                 fp, ap = c.mean_curve_peak(search_range_in_hz=r)
